@@ -2,7 +2,7 @@
 import json
 
 from .. import common, families, langs, modelgen
-from ..langs import COL, F, S, SUB, step
+from ..langs import COL, DIF, F, INT, S, SUB, UNI, step
 from ..refs import inherit, sem
 
 PROP = 'C01'
@@ -237,7 +237,7 @@ def chain_cases():
     """long navigation chains over densely linked models: the result is a tiny set, an evaluator that keeps
     lists (one entry per path) needs time exponential in the length of the chain"""
     def chain(k, sub):
-        hop = SUB('Aa', F('peers')) if sub else F('peers')
+        hop = SUB('Aa', F('peers')) if sub is True else F('peers')
         e = hop
         for _ in range(k - 1):
             e = COL(e, hop)
@@ -248,10 +248,24 @@ def chain_cases():
     ring = sem.PlainModel([('a1', 'Aa'), ('a2', 'Aa'), ('c1', 'Cc')],
                           [('Peer', 'peers', ['a1'], 'peersOf', ['a2']), ('Peer', 'peers', ['a2'], 'peersOf', ['a1']),
                            ('Peer', 'peers', ['c1'], 'peersOf', ['a1', 'a2'])])
+    names6 = [f'a{i}' for i in range(1, 7)]
+    dense6 = sem.PlainModel([(n, 'Aa' if i % 2 else 'Bb') for i, n in enumerate(names6)],
+                            [('Peer', 'peers', names6, 'peersOf', names6)])
+
+    def nested(k, op):
+        # peers.(peers.( ... (peers op peersOf) ... op peersOf) op peersOf): set operators nested under navigation
+        e = op(F('peers'), F('peersOf'))
+        for _ in range(k):
+            e = op(COL(F('peers'), e), F('peersOf'))
+        return COL(e, S('t'))
     out = []
     for k, sub in ((4, True), (6, True), (10, True), (12, False), (24, False), (40, False)):
         for mname, pm in (('dense2', dense2), ('dense3', dense3), ('ring', ring)):
             out.append((k, sub, mname, chain(k, sub), pm))
+    for k in (4, 8, 12):
+        for oname, op in (('union', UNI), ('intersection', INT), ('difference', DIF)):
+            for mname, pm in (('dense3', dense3), ('dense6', dense6)):
+                out.append((k, 'nested_' + oname, mname, nested(k, op), pm))
     return out
 
 
@@ -268,7 +282,7 @@ def _job_chain(i):
     out = []
     for v in vs:
         j = v.to_json()
-        j['key'] = j['key'] + (':chain_of_subtype_filters' if sub else ':chain_of_fields')
+        j['key'] = j['key'] + (':' + sub if isinstance(sub, str) else ':chain_of_subtype_filters' if sub else ':chain_of_fields')
         j['case'] = dict(j.get('case') or {}, chain_length=k, model_name=mname)
         out.append(j)
     stats['graphs'] = 1
@@ -311,7 +325,7 @@ def run(tier, seed):
     for stats, viols in common.pmap(_job_chain, common.rotate(list(range(len(chain_cases()))), seed)):
         res.merge_counts(stats)
         res.add_violations(viols)
-    res.bounds['chains'] = 'peers / peers[Aa] chains of 4..40 hops x {2, 3 mutually linked assets, ring}; 3 s CPU per graph'
+    res.bounds['chains'] = 'peers / peers[Aa] chains of 4..40 hops x {2, 3 mutually linked assets, ring}; set operators nested 4..12 deep under navigation x {3, 6 mutually linked assets}; 3 s CPU per graph'
     # part B: models reached by edit histories (removals, partial removals, re-adds), with graph
     # generation itself as an operation, so that state hidden in the model (caches, stale
     # registrations) is exercised: every reached state's graph is compared with the semantics
